@@ -260,7 +260,13 @@ class Taint:
                 if lab is not None:
                     out[None] = {lab}
                 elif p and c["f"].get("local") and p in self.F.bodies and sk is None and not self.opaque(p):
-                    r = self.analyse(p, {i + 1: ls for i, ls in enumerate(arg_ls)}, None, depth + 1)
+                    if self.F.bodies[p].get("kind") == "closure" and p in clo_caps:
+                        # a closure created in this body and called here directly (`let f = || ..; f()`): its environment is entered capture by capture,
+                        # not as one argument carrying the union of everything it captures
+                        up = {i: read_op(op) for i, op in enumerate(clo_caps[p])}
+                        r = self.analyse(p, {i + 1: ls for i, ls in enumerate(arg_ls) if i >= 1}, up, depth + 1)
+                    else:
+                        r = self.analyse(p, {i + 1: ls for i, ls in enumerate(arg_ls)}, None, depth + 1)
                     if r is not None:
                         entered = True
                         ret, back = r[0], r[1]
